@@ -25,10 +25,11 @@ ASSUMPTIONS = ['two algebras with equal abstraction hold identical code in ident
                'sympy/numpy frames are atomic for the scheduler (line events are taken in kingdon/*.py only)',
                'CPython threads switch only between bytecodes; the line granularity is complemented by a free-running smoke pass']
 BOUNDS = {
-    'quick': 'BFS to fixpoint, 8-symbol alphabet x {Algebra(2), Algebra(2,0,1)} x {no wrapper, tagging wrapper}; wrapper faults k<=2 on '
-             'histories of length <=2; threads: 2x1 calls, preemption bound 1 over all line events (3 harnesses)',
-    'thorough': 'BFS to fixpoint, 12-symbol alphabet, same worlds + graded world, depth cap 9; wrapper faults k<=4, histories <=3; threads: '
-                '2x1 bound 2 (2 harnesses), 2x2 and 3x1 bound 1',
+    'quick': 'BFS to fixpoint: 8-symbol alphabet x {Algebra(2), Algebra(2,0,1)} x {no wrapper, tagging wrapper}; all 6 key orders of one key set in d=5 '
+             '(+ registered function) with and without wrapper; redefinition worlds; wrapper faults (call time and wrap time) k<=2 on histories <=2; '
+             'threads: 2x1 calls, preemption bound 1 over all line events (4 harnesses)',
+    'thorough': 'everything of quick with wrapper faults (call and wrap time) k<=4 on histories <=3; threads: 10 harnesses at bound 1 (2x1, 2x2, 3x1 calls), '
+                'bound 2 over all points for w:gp1|gp2 and over the cache sites for two more; then BFS over the 13-symbol alphabet for the remaining time',
 }
 
 F = Fraction
@@ -369,9 +370,19 @@ def drive(ctx):
     tier = ctx.tier
     _tier[0] = tier
     res = Result()
-    worlds = [f'{w}|{tier}' for w in WORLDS]
+    # thorough: first everything the quick tier does (small alphabet to fixpoint), then the thread exploration, and only then the
+    # BFS over the large alphabet with whatever time is left (it stops at a level boundary and reports the cap)
+    worlds = [f'{w}|quick' for w in WORLDS]
+    if tier == 'thorough':
+        worlds += ['THREADS'] + [f'{w}|thorough' for w in WORLDS if not WORLDS[w].get('perm') and not WORLDS[w].get('redef')]
     samples = []
+    threads_done = False
     for world_id in worlds:
+        if world_id == 'THREADS':
+            from . import C09_threads
+            C09_threads.drive(ctx, res, tier)
+            threads_done = True
+            continue
         for name, msg in reference_check(world_id):
             res.violate(violation(f'fresh-vs-reference:{name}', f'{world_id} {name}: {msg}', {'world': world_id, 'history': [name]}, 'reference', msg))
 
@@ -394,12 +405,14 @@ def drive(ctx):
         # wrapper fault menu
         if WORLDS[_wid(world_id)]['wrapper'] and not WORLDS[_wid(world_id)].get('perm') and not WORLDS[_wid(world_id)].get('redef'):
             from itertools import product
-            maxk, maxlen = (2, 2) if tier == 'quick' else (4, 3)
+            if tier == 'quick' or not world_id.endswith('|quick'):
+                maxk, maxlen = 2, 2
+            else:
+                maxk, maxlen = 4, 3      # thorough tier, small alphabet: deeper fault menu
             names = list(alphabet(world_id))
             hists = [h for n in range(1, maxlen + 1) for h in product(names, repeat=n)]
             tasks = [(world_id, h, k, r['fresh']) for h in hists for k in list(range(1, maxk + 1)) + list(range(-1, -maxk - 1, -1))]
-            if tier == 'thorough':
-                tasks = [t for t in tasks if len(t[1]) < 3 or abs(t[2]) <= 2]
+            tasks = [t for t in tasks if len(t[1]) < 3 or abs(t[2]) <= 2]
             nf = 0
             for (wid, h, k, _), recs in zip(tasks, ctx.map('fault_task', tasks)):
                 for name, prob, faulted in recs:
@@ -413,11 +426,9 @@ def drive(ctx):
     res.nontrivial = res.states
     res.samples = samples[:3]
     # concurrent part
-    try:
+    if not threads_done:
         from . import C09_threads
         C09_threads.drive(ctx, res, tier)
-    except ImportError:
-        pass
     merge(ctx.agg, res.asdict())
     ctx.agg['samples'] = res.samples
 
